@@ -28,7 +28,7 @@ func TestMain(m *testing.M) {
 		main()
 		os.Exit(0)
 	}
-	vh.Main(map[string]vh.CheckFunc{"C13spectool": C13spectool})
+	vh.Main(map[string]vh.CheckFunc{"C13spectool": C13spectool, "C20spectool": C20spectool})
 }
 
 // C13spectool: the repository's own converters between representations.  `spectool yamltojson`, `spectool
